@@ -216,6 +216,24 @@ def oracle(case, stats):
     except Exception as e:
         raise Violation("exception-in-replace", "%s: %r" % (type(e).__name__, e))
     ncross = check_result(case, groups, new, stats, "base run", k)
+    # the caller moves the STRUCTURE object in place (all atoms shifted by one vector and wrapped back, written into the same
+    # positions array) and replaces again with the same pattern objects: the result must describe the moved structure
+    if case["seeds"][0] % 4 == 1:
+        cell_ = np.array(case["cell"], float)
+        v_ = np.array([0.37, -1.21, 0.73]) * (1 + (case["seeds"][1] % 5))
+        moved = geom.wrap(cell_, np.array(case["spos"], float) + v_)
+        case4 = dict(case)
+        case4["spos"] = moved.tolist()
+        g4, reason4 = repl.analyse(case4)
+        if not reason4 and g4:
+            s.positions[:] = moved
+            try:
+                new4, k4 = mf.replace(s, sp, rp, case["atol"], case["hints"], case["seeds"], **kw)
+            except Exception as e:
+                raise Violation("exception-in-replace", "second call after moving the structure in place: %s: %r" % (type(e).__name__, e))
+            check_result(case4, g4, new4, stats, "second call after moving the structure object in place", k4)
+            s.positions[:] = np.array(case["spos"], float)
+            stats.count("structure-moved-in-place")
     # the caller edits the replacement pattern object in place (one new atom moved a quarter of the way towards the first
     # search atom) and calls again with the same objects: the result must follow the pattern as it is now
     sh_, s_only_, r_only_ = repl.shared_maps(case)
